@@ -1,4 +1,5 @@
 import HpoProofs.Combine
+import HpoProofs.RoundedSet
 /-!
 # C05 — set similarity = funSimAvg / funSimMax / BMA of the pairwise matrix
 
@@ -9,8 +10,10 @@ Theorems about `HpoModel/Matrix.lean` and `HpoModel/Combine.lean` (the model of 
 of ANY sizes (the only bound is the code's own `usize_to_f32` guard `≤ 65535`, beyond which the
 code panics and the model says so).
 
-PARTIAL (see `lib/propmeta.py`): over ℝ; f32 rounding of the sums and quotients is covered by
-the correspondence check only (dyadic inputs, identical operation order).
+PARTIAL (see `lib/propmeta.py`): the closed forms are over ℝ; the f32 VALUE of the sums and
+quotients is covered by the correspondence check only (dyadic inputs, identical operation order).
+Definedness, sign, range and argument-order symmetry are proved a second time for EVERY
+correctly-rounding arithmetic (`C05_*_rounded`).
 -/
 namespace Hpo.C05
 open Hpo Hpo.Matrix Hpo.Combine Hpo.NumReal
@@ -237,6 +240,95 @@ theorem C05_cached_transparent (cb : Combiner) (sim : ℕ → ℕ → ℝ)
 theorem C05_cached_transparent_fresh (cb : Combiner) (sim : ℕ → ℕ → ℝ)
     (qs : List (List ℕ × List ℕ)) : runCached cb sim qs [] = runPlain cb sim qs :=
   C05_cached_transparent cb sim qs [] (memoOK_nil sim)
+
+/-! ## the definedness / sign / range / symmetry clauses for EVERY correctly-rounding arithmetic
+
+`R : Rounding` (`HpoProofs/Rounded.lean`): explicit hypotheses on a rounding function (monotone,
+integers up to 2^24 exact, …).  The SAME model functions are evaluated at `RVal R`, where every
+partial sum, every quotient and the final combination is rounded; the row / column maxima only
+compare and are therefore exact.  `sim : ℕ → ℕ → RVal R` is an arbitrary (rounded) table. -/
+
+/-- the maximum the code computes for a row / column is the greatest element under every
+rounding (comparisons are exact) -/
+theorem C05_maxima_rounded (R : Rounding) (l : List (RVal R)) (h : l ≠ []) :
+    reduceMax l = some (gmax l) ∧ gmax l ∈ l ∧ ∀ x ∈ l, x.v ≤ (gmax l).v :=
+  ⟨reduceMax_gmax l h, (gmaxR_isGreatest l h).1, (gmaxR_isGreatest l h).2⟩
+
+/-- **no panic, no zero denominator, sign and range under rounding**: for non-empty sets within
+the `u16` guard all three combiners return a value; it is ≥ 0 when the table is, and ≤ 1 when the
+table is (the rounded partial sums of `n` numbers ≤ 1 stay ≤ `n`, the rounded denominators
+`rnd n`, `rnd 2`, `rnd (rnd r + rnd c)` are exact and ≥ 1) -/
+theorem C05_defined_range_rounded (R : Rounding) (cb : Combiner) (sim : ℕ → ℕ → RVal R)
+    (A B : List ℕ) (hA : A ≠ []) (hB : B ≠ []) (hA16 : A.length ≤ 65535) (hB16 : B.length ≤ 65535) :
+    ∃ v : RVal R, groupSimilarity cb sim A B = .ok (some v) ∧
+      ((∀ x y, 0 ≤ (sim x y).v) → 0 ≤ v.v) ∧ ((∀ x y, (sim x y).v ≤ 1) → v.v ≤ 1) := by
+  obtain ⟨v, hv, h0, h1⟩ := combineWithR_defined_range (R := R) cb A.length B.length
+    (A.map fun a => gmax (B.map (sim a))) (B.map fun b => gmax (A.map fun a => sim a b))
+    (List.length_pos_iff.2 hA) (List.length_pos_iff.2 hB) hA16 hB16 (by simp) (by simp)
+  have hrow : ∀ (P : RVal R → Prop), (∀ x y, P (sim x y)) →
+      ∀ x ∈ A.map fun a => gmax (B.map (sim a)), P x := by
+    intro P hP x hx
+    rcases List.mem_map.1 hx with ⟨a, _, rfl⟩
+    have := gmaxR_mem (B.map (sim a)) (by simpa using hB)
+    rcases List.mem_map.1 this with ⟨b, _, hb⟩
+    rw [← hb]; exact hP a b
+  have hcol : ∀ (P : RVal R → Prop), (∀ x y, P (sim x y)) →
+      ∀ x ∈ B.map fun b => gmax (A.map fun a => sim a b), P x := by
+    intro P hP x hx
+    rcases List.mem_map.1 hx with ⟨b, _, rfl⟩
+    have := gmaxR_mem (A.map fun a => sim a b) (by simpa using hA)
+    rcases List.mem_map.1 this with ⟨a, _, ha⟩
+    rw [← ha]; exact hP a b
+  refine ⟨v, by rw [groupSimilarity_eq_g cb sim A B hA hB hA16 hB16, hv], ?_, ?_⟩
+  · intro hs
+    exact h0 (hrow (fun x => 0 ≤ x.v) hs) (hcol (fun x => 0 ≤ x.v) hs)
+  · intro hs
+    exact h1 (hrow (fun x => x.v ≤ 1) hs) (hcol (fun x => x.v ≤ 1) hs)
+
+/-- 0 if either set is empty -/
+theorem C05_empty_rounded (R : Rounding) (cb : Combiner) (sim : ℕ → ℕ → RVal R) (A B : List ℕ)
+    (h : A = [] ∨ B = []) : groupSimilarity cb sim A B = .ok (some ⟨0⟩) := by
+  rw [groupSimilarity_empty_g cb sim A B h]
+  congr 2
+  apply RVal.ext'
+  simp
+
+/-- **argument order under rounding**: with a symmetric table the set similarity is the same for
+(A, B) and (B, A), bit for bit (rows and columns exchange their roles; rounded `+` is commutative) -/
+theorem C05_symm_rounded (R : Rounding) (cb : Combiner) (sim : ℕ → ℕ → RVal R)
+    (hs : ∀ x y, sim x y = sim y x) (A B : List ℕ) :
+    groupSimilarity cb sim A B = groupSimilarity cb sim B A := by
+  by_cases hA : A = []
+  · rw [groupSimilarity_empty_g cb sim A B (Or.inl hA), groupSimilarity_empty_g cb sim B A (Or.inr hA)]
+  by_cases hB : B = []
+  · rw [groupSimilarity_empty_g cb sim A B (Or.inr hB), groupSimilarity_empty_g cb sim B A (Or.inl hB)]
+  by_cases h16 : A.length ≤ 65535 ∧ B.length ≤ 65535
+  · rw [groupSimilarity_eq_g cb sim A B hA hB h16.1 h16.2,
+      groupSimilarity_eq_g cb sim B A hB hA h16.2 h16.1, combineWithR_swap cb A.length B.length]
+    have h1 : (A.map fun a => gmax (B.map (sim a))) = A.map fun a => gmax (B.map fun b => sim b a) := by
+      apply List.map_congr_left; intro a _; congr 1; apply List.map_congr_left; intro b _; exact hs a b
+    have h2 : (B.map fun b => gmax (A.map fun a => sim a b)) = B.map fun b => gmax (A.map (sim b)) := by
+      apply List.map_congr_left; intro b _; congr 1; apply List.map_congr_left; intro a _; exact hs a b
+    rw [h1, h2]
+  · rw [groupSimilarity_panic_g cb sim A B hA hB h16,
+      groupSimilarity_panic_g cb sim B A hB hA (fun h => h16 ⟨h.2, h.1⟩)]
+
+/-- the caching adaptor is transparent under rounding as well (it stores and returns values; no
+arithmetic) -/
+theorem C05_cached_transparent_rounded (R : Rounding) (cb : Combiner) (sim : ℕ → ℕ → RVal R)
+    (qs : List (List ℕ × List ℕ)) : runCached cb sim qs [] = runPlain cb sim qs :=
+  runCached_eq_g cb sim qs [] (memoOK_nil sim)
+
+/-- non-vacuity: the exact arithmetic is a `Rounding`; a symmetric table with values in [0, 1] -/
+example : ∃ sim : ℕ → ℕ → RVal Rounding.exact, (∀ x y, sim x y = sim y x) ∧
+    (∀ x y, 0 ≤ (sim x y).v) ∧ (∀ x y, (sim x y).v ≤ 1) ∧ sim 1 2 ≠ sim 1 1 := by
+  refine ⟨fun x y => ⟨if x = y then 1 else 1 / 2⟩, ?_, ?_, ?_, ?_⟩
+  · intro x y; simp only [eq_comm]
+  · intro x y; dsimp only; split <;> norm_num
+  · intro x y; dsimp only; split <;> norm_num
+  · intro h
+    have := congrArg RVal.v h
+    norm_num at this
 
 /-! ## non-vacuity: a 2 × 3 asymmetric instance with non-trivial values -/
 
